@@ -20,6 +20,11 @@ CLAIMED["C09"] = ("All 2^72 / 2^28 / 2^11 messages (message bits symbolic): extr
 CLAIMED["C10"] = ("All 2^144 blocks as bits and bytes (decode(encode(x)) == x, 196 bits out), both permutation identities over symbolic arrays, symbol-mapping layers "
                   "bijective for all 2^196 streams, and the decoder step at each of the 49 positions from every reachable state with every received point: rejected <=> "
                   "not a point the encoder can emit there.", "6/C10")
+CLAIMED["C11"] = ("All 65,536 multiplier pairs vs an independent GF(2^8) multiply; all 2^72 messages x 2^24 masks: systematic, zero syndromes, check accepts; "
+                  "check(w) <=> codeword for all 2^96 words; every corruption of 1..3 symbols detected (positions and values symbolic). Complete for the quantifier.", "6/C11")
+CLAIMED["C14"] = ("All 2^32 unsigned and all signed |v| <= 2^31-1 var-ints (canonical form, exact read-back, consumed length, arbitrary trailing bytes); float writers for "
+                  "every x = I + K/128^p (p = 1, 2; 3 in thorough) as exact dyadic rationals; info-time for all in-range field values against the decoding slices read "
+                  "from the XML view's AST. The latitude/longitude clause is NOT decided (decimal rounding; see evidence.outside_bounds).", "6/C14")
 NOT_YET = {}
 props = [json.loads(l) for l in open(os.path.join(V, "properties.jsonl"))]
 checks = []
